@@ -3,6 +3,15 @@ package props
 import (
 	"bytes"
 	"fmt"
+	"os"
+	"os/exec"
+	"regexp"
+	"strconv"
+	"strings"
+
+	"github.com/yuin/goldmark"
+	"github.com/yuin/goldmark/extension"
+	"github.com/yuin/goldmark/renderer/html"
 
 	"github.com/yuin/goldmark/ast"
 
@@ -10,7 +19,7 @@ import (
 )
 
 func init() {
-	register(&Check{ID: "C06", QuickS: 200, ThorS: 1800, Run: runC06, Replay: replayC06})
+	register(&Check{ID: "C06", QuickS: 200, ThorS: 1800, Run: runC06, Replay: replayC06, Workers: c06Worker})
 }
 
 // leak-prone documents: each one carries per-document state that must not survive into the next conversion
@@ -109,6 +118,7 @@ func histStrings(h []c06Op) []string {
 }
 
 func runC06(r *core.Run) {
+	runC06Order(r)
 	depth := core.Pick(r, 3, 4)
 	ops := c06Ops(len(c06Docs))
 	for _, cn := range []string{"core", "gfm", "all+autoid+attr", "all+cjk+autoid+attr+xhtml+align=style"} {
@@ -221,5 +231,158 @@ func replayC06(r *core.Run, v *core.Violation) {
 	fmt.Println("C06 replays: re-run ./run.sh C06 quick (histories are enumerated deterministically); the replay file lists the operation sequence and the generated expectation")
 	s := r.Sub(v.Sub, "replay")
 	s.Evals.Add(1)
+	s.Done()
+}
+
+// ---- cross-instance order: output must not depend on which other instances exist or rendered earlier in the process
+
+var c06OrderCfgs = []string{"core+autoid", "core+autoid+attr", "core", "core+xhtml", "core+unsafe", "core+hardwraps", "gfm", "gfm+xhtml", "gfm+unsafe+hardwraps", "all+autoid+attr", "all+autoid+attr+xhtml", "all+cjk", "footnote+xhtml", "typographer", "tasklist", "tasklist+xhtml", "table+align=attr", "table+align=style", "deflist+xhtml", "linkify", "strike"}
+
+var c06OrderDocs = append(append([]string{}, c06Docs...),
+	"- [ ] a\n- [x] b\n", "a  \nb\n\n***\n\n![i](/j)\n", "|a|b|\n|:-|-:|\n|c|d|\n", "<div>x</div>\n\n<b>y</b> [l](javascript:z)\n", "# h {#i .c}\n\n# h\n\n# h\n", "x[^1]\n\n[^1]: n\n", "\"q\" -- 'r'...\n", "t\n: d\n", "~~s~~ www.a.bc a@b.cd\n", "漢\n字 a\nb\n", "go/links www.xa.bc ftp://a.bc http/x\n", "a\\ b\n", "# x {#h}\n", "# h\n", "## y {#a}\n\n## z {#a-1}\n", "# a\n\n# a\n")
+
+// instances configured through option channels that core.Cfg does not express: extension options given as parser /
+// renderer options next to the package-level extension values, and option-bearing extension constructors
+type c06Custom struct {
+	name string
+	mk   func() goldmark.Markdown
+}
+
+var c06Customs = []c06Custom{
+	{"linkify+parser-options(go-links)", func() goldmark.Markdown {
+		return goldmark.New(goldmark.WithExtensions(extension.Linkify), goldmark.WithParserOptions(
+			extension.WithLinkifyAllowedProtocols([]string{"go", "http"}), extension.WithLinkifyURLRegexp(regexp.MustCompile(`^(?:go|http)(?:://|/)[a-z./]+`))))
+	}},
+	{"gfm+parser-options(www-regexp)", func() goldmark.Markdown {
+		return goldmark.New(goldmark.WithExtensions(extension.GFM), goldmark.WithParserOptions(extension.WithLinkifyWWWRegexp(regexp.MustCompile(`^www\.x[a-z.]*`))))
+	}},
+	{"NewLinkify(protocols)", func() goldmark.Markdown {
+		return goldmark.New(goldmark.WithExtensions(extension.NewLinkify(extension.WithLinkifyAllowedProtocols([]string{"ftp"}))))
+	}},
+	{"NewTypographer(substitutions)", func() goldmark.Markdown {
+		return goldmark.New(goldmark.WithExtensions(extension.NewTypographer(extension.WithTypographicSubstitutions(map[extension.TypographicPunctuation]string{extension.LeftDoubleQuote: "<<", extension.RightDoubleQuote: ">>", extension.EnDash: "--"}))))
+	}},
+	{"typographer+parser-options", func() goldmark.Markdown {
+		return goldmark.New(goldmark.WithExtensions(extension.Typographer), goldmark.WithParserOptions(extension.WithTypographicSubstitutions(map[extension.TypographicPunctuation]string{extension.Ellipsis: "..."})))
+	}},
+	{"NewFootnote(prefix,titles)", func() goldmark.Markdown {
+		return goldmark.New(goldmark.WithExtensions(extension.NewFootnote(extension.WithFootnoteIDPrefix("p-"), extension.WithFootnoteLinkTitle("L%%"), extension.WithFootnoteBacklinkClass("bk"))))
+	}},
+	{"footnote+renderer-options", func() goldmark.Markdown {
+		return goldmark.New(goldmark.WithExtensions(extension.Footnote), goldmark.WithRendererOptions(extension.WithFootnoteBacklinkHTML("^"), extension.WithFootnoteIDPrefix("q-")))
+	}},
+	{"NewTable(style)+xhtml", func() goldmark.Markdown {
+		return goldmark.New(goldmark.WithExtensions(extension.NewTable(extension.WithTableCellAlignMethod(extension.TableCellAlignStyle))), goldmark.WithRendererOptions(html.WithXHTML()))
+	}},
+	{"table+renderer-options(attr)", func() goldmark.Markdown {
+		return goldmark.New(goldmark.WithExtensions(extension.Table), goldmark.WithRendererOptions(extension.WithTableCellAlignMethod(extension.TableCellAlignAttribute)))
+	}},
+	{"gfm+cjk(css3)+escaped-space", func() goldmark.Markdown {
+		return goldmark.New(goldmark.WithExtensions(extension.GFM, extension.NewCJK(extension.WithEastAsianLineBreaks(extension.EastAsianLineBreaksCSS3Draft), extension.WithEscapedSpace())))
+	}},
+	{"default-instance-like", func() goldmark.Markdown { return goldmark.New() }},
+	{"gfm-again", func() goldmark.Markdown { return goldmark.New(goldmark.WithExtensions(extension.GFM)) }},
+}
+
+func c06OrderNames() []string {
+	names := append([]string{}, c06OrderCfgs...)
+	for _, c := range c06Customs {
+		names = append(names, c.name)
+	}
+	return names
+}
+
+func c06OrderNew(i int) goldmark.Markdown {
+	if i < len(c06OrderCfgs) {
+		return core.MustCfg(c06OrderCfgs[i]).New()
+	}
+	return c06Customs[i-len(c06OrderCfgs)].mk()
+}
+
+// c06Worker: vcheck C06 --worker order <perm>. Builds the instances in the given order, converts every document on each
+// (pass 0), then converts everything again on the now long-used instances (pass 1), and prints one digest per
+// (configuration, document, pass).
+func c06Worker(args []string) int {
+	if len(args) < 2 || args[0] != "order" {
+		return 2
+	}
+	n := len(c06OrderNames())
+	order := make([]int, n)
+	for i := range order {
+		switch args[1] {
+		case "reverse":
+			order[i] = n - 1 - i
+		case "rotate":
+			order[i] = (i + n/2) % n
+		case "interleave":
+			order[i] = (i*7 + 3) % n
+		default:
+			order[i] = i
+		}
+	}
+	convs := make([]*core.Conv, n)
+	for pass := 0; pass < 2; pass++ {
+		for _, ci := range order {
+			if convs[ci] == nil {
+				convs[ci] = &core.Conv{MD: c06OrderNew(ci)}
+			}
+			for dj := range c06OrderDocs {
+				di := dj
+				if args[1] == "reverse" || args[1] == "interleave" {
+					di = len(c06OrderDocs) - 1 - dj // the documents, too, come in another order
+				}
+				d := c06OrderDocs[di]
+				out, err, pan := convs[ci].Convert([]byte(d))
+				if pan != nil || err != nil {
+					fmt.Printf("%d %d %d FAIL %v %v\n", ci, di, pass, pan, err)
+					continue
+				}
+				fmt.Printf("%d %d %d %016x %s\n", ci, di, pass, core.Hash(out), strconv.Quote(string(out)))
+			}
+		}
+	}
+	return 0
+}
+
+func runC06Order(r *core.Run) {
+	s := r.Sub("cross-instance-order", fmt.Sprintf("four fresh processes each build %d differently configured instances in a different order (as listed, reversed, rotated by half, stride 7) and convert %d documents on each (in listed or reversed document order), twice (pass 2 = every instance long-used and every other instance already used): the bytes for (configuration, document) must be identical in every process and both passes — output may not depend on which other instances exist or rendered first", len(c06OrderNames()), len(c06OrderDocs)))
+	exe, _ := os.Executable()
+	names := c06OrderNames()
+	perms := []string{"identity", "reverse", "rotate", "interleave"}
+	type key struct{ c, d int }
+	ref := map[key]string{}
+	refFrom := map[key]string{}
+	for _, pm := range perms {
+		cmd := exec.Command(exe, "C06", "--worker", "order", pm)
+		out, err := cmd.Output()
+		if err != nil {
+			s.Incomplete("worker failed: " + err.Error())
+			continue
+		}
+		for _, ln := range strings.Split(strings.TrimSpace(string(out)), "\n") {
+			f := strings.SplitN(ln, " ", 5)
+			if len(f) < 5 {
+				continue
+			}
+			ci, _ := strconv.Atoi(f[0])
+			di, _ := strconv.Atoi(f[1])
+			k := key{ci, di}
+			s.Evals.Add(1)
+			val := f[3] + " " + f[4]
+			if prev, ok := ref[k]; !ok {
+				ref[k], refFrom[k] = val, pm+"/pass"+f[2]
+			} else if prev != val {
+				a, _ := strconv.Unquote(strings.SplitN(prev, " ", 2)[1])
+				b, _ := strconv.Unquote(strings.SplitN(val, " ", 2)[1])
+				s.Violate("output-depends-on-other-instances:"+names[ci], names[ci], []byte(c06OrderDocs[di]), nil,
+					fmt.Sprintf("configuration %s renders this document differently in process order %q pass %s than in %s", names[ci], pm, f[2], refFrom[k]), a, b)
+			}
+			s.Distinct(core.Hash([]byte(val)))
+		}
+	}
+	s.States.Store(int64(len(ref)))
+	s.Transitions.Store(s.Evals.Load())
+	s.Bound = fmt.Sprintf("%d orders × %d configurations × %d documents × 2 passes", len(perms), len(names), len(c06OrderDocs))
+	s.AddSample("order reverse: tasklist+xhtml renders before tasklist")
 	s.Done()
 }
